@@ -334,7 +334,7 @@ def c15(r):
                 extra=['-simulate', 'num=%d' % num, '-depth', '80', '-seed', str(r.seed)])
     r.exhaustive = False
     r.extra['bounds'] = ('%d random walks x 3 cut lengths (<= %d calls + release) over 22 kinds of call, %d program texts (%d rejected by the parser, 5 failing at run time), '
-                         '%d expression texts, 16 value kinds, 2 contexts (original + clone), 3/2/2/2 value/pointer/executable/expression handles' % (num, ln, 95, 71, 22))
+                         '%d expression texts, 16 value kinds, 2 contexts (original + clone), 3/2/2/2 value/pointer/executable/expression handles' % (num, ln, 78, 59, 21))
     lenv = {'VDRIVE_LEAKCHECK': '1', 'ASAN_OPTIONS': 'detect_leaks=1:abort_on_error=0:halt_on_error=1:allocator_may_return_null=1:fast_unwind_on_malloc=0'}
     r.conform(scs, trace_module='Trace_C15', trace_cfg='Trace_C15.cfg', workers=16, batch=1, env=lenv)
     if not r.quick:
